@@ -1,3 +1,247 @@
+/-
+  C11 — Column and table slices keep their structural invariants.
+-/
 import Sbdf.Slice
+import Sbdf.Gen.Tables
+import Sbdf.Lemmas.P
 namespace Sbdf.C11
+
+/-! ### property additions -/
+
+/-- An addition is accepted exactly when the row counts agree and the name is new. -/
+theorem add_accepted_iff (cs : CS) (name : Bytes) (va : VA) :
+    (∃ cs', csAddProperty cs name va = .ok cs') ↔
+      (cs.values.rowCnt = va.rowCnt ∧ ¬ cs.props.any (fun p => Md.nameEq p.1 name) = true) := by
+  unfold csAddProperty
+  constructor
+  · intro ⟨cs', h⟩
+    split at h
+    · simp at h
+    · split at h
+      · simp at h
+      · rename_i h1 h2; exact ⟨by simpa using h1, h2⟩
+  · intro ⟨h1, h2⟩
+    simp [h1, h2]
+
+/-- the two rejection statuses -/
+theorem add_rejected (cs : CS) (name : Bytes) (va : VA) :
+    (cs.values.rowCnt ≠ va.rowCnt → csAddProperty cs name va = .error .rowCountMismatch) ∧
+    (cs.values.rowCnt = va.rowCnt → cs.props.any (fun p => Md.nameEq p.1 name) = true →
+      csAddProperty cs name va = .error .propExists) := by
+  unfold csAddProperty
+  exact ⟨fun h => by simp [h], fun h1 h2 => by simp [h1, h2]⟩
+
+/-- An accepted property is appended (insertion order preserved, nothing else changes) ... -/
+theorem add_appends (cs cs' : CS) (name : Bytes) (va : VA) (h : csAddProperty cs name va = .ok cs') :
+    cs'.props = cs.props ++ [(cstr name, va)] ∧ cs'.values = cs.values ∧ cs'.propCnt = cs.propCnt + 1 := by
+  unfold csAddProperty at h
+  split at h
+  · simp at h
+  · split at h
+    · simp at h
+    · simp at h; subst h; simp
+
+theorem nameEq_cstr (a b : Bytes) : Md.nameEq (cstr a) b = Md.nameEq a b := by
+  have : cstr (cstr a) = cstr a := by
+    unfold cstr
+    induction a with
+    | nil => rfl
+    | cons x xs ih =>
+      simp only [List.takeWhile_cons]
+      split
+      · rename_i hx; simp only [List.takeWhile_cons, hx, if_true, ih]
+      · rfl
+  simp [Md.nameEq, this]
+
+theorem nameEq_refl (a : Bytes) : Md.nameEq a a = true := by simp [Md.nameEq]
+
+/-- ... and is retrievable by name as the very same array: the lookup returns the slot the
+    addition filled (identity = index of the addition), whose content is the array added. -/
+theorem get_after_add (cs cs' : CS) (name : Bytes) (va : VA) (h : csAddProperty cs name va = .ok cs') :
+    csGetPropertyIdx cs' name = some cs.props.length ∧ csGetProperty cs' name = .ok va := by
+  have hacc := (add_accepted_iff cs name va).mp ⟨cs', h⟩
+  obtain ⟨hp, _, _⟩ := add_appends cs cs' name va h
+  have hnone : ∀ p ∈ cs.props, Md.nameEq p.1 name = false := by
+    intro p hpm
+    have := hacc.2
+    simp only [List.any_eq_true, not_exists, not_and, Bool.not_eq_true] at this
+    exact this p hpm
+  constructor
+  · unfold csGetPropertyIdx
+    rw [hp, List.findIdx?_append]
+    have h1 : cs.props.findIdx? (fun p => Md.nameEq p.1 name) = none := by
+      rw [List.findIdx?_eq_none_iff]; intro p hpm; simp [hnone p hpm]
+    simp [h1, nameEq_cstr, nameEq_refl]
+  · unfold csGetProperty
+    rw [hp, List.find?_append]
+    have h1 : cs.props.find? (fun p => Md.nameEq p.1 name) = none := by
+      rw [List.find?_eq_none]; intro p hpm; simp [hnone p hpm]
+    simp [h1, nameEq_cstr, nameEq_refl]
+
+/-- earlier properties keep their slot and content -/
+theorem get_preserved (cs cs' : CS) (name other : Bytes) (va : VA) (i : Nat)
+    (h : csAddProperty cs name va = .ok cs') (hi : csGetPropertyIdx cs other = some i) :
+    csGetPropertyIdx cs' other = some i := by
+  obtain ⟨hp, _, _⟩ := add_appends cs cs' name va h
+  unfold csGetPropertyIdx at hi ⊢
+  rw [hp, List.findIdx?_append, hi]; rfl
+
+/-- structural invariant of caller-built column slices -/
+structure Inv (cs : CS) : Prop where
+  cnt : cs.propCnt = cs.props.length
+  rows : ∀ p ∈ cs.props, p.2.rowCnt = cs.values.rowCnt
+  uniq : cs.props.Pairwise (fun p q => Md.nameEq p.1 q.1 = false)
+
+theorem inv_create (v : VA) : Inv (csCreate v) := ⟨by simp [csCreate], by simp [csCreate], by simp [csCreate]⟩
+
+theorem nameEq_symm (a b : Bytes) : Md.nameEq a b = Md.nameEq b a := by
+  simp only [Md.nameEq]; exact Bool.eq_iff_iff.mpr ⟨fun h => by simpa using (beq_iff_eq.mp h).symm, fun h => by simpa using (beq_iff_eq.mp h).symm⟩
+
+theorem inv_add (cs cs' : CS) (name : Bytes) (va : VA) (hinv : Inv cs) (h : csAddProperty cs name va = .ok cs') :
+    Inv cs' := by
+  have hacc := (add_accepted_iff cs name va).mp ⟨cs', h⟩
+  obtain ⟨hp, hv, hc⟩ := add_appends cs cs' name va h
+  refine ⟨?_, ?_, ?_⟩
+  · rw [hc, hp, hinv.cnt]; simp
+  · intro p hpm; rw [hp] at hpm; rw [hv]
+    simp only [List.mem_append, List.mem_singleton] at hpm
+    rcases hpm with h1 | h1
+    · exact hinv.rows p h1
+    · subst h1; exact hacc.1.symm
+  · rw [hp, List.pairwise_append]
+    refine ⟨hinv.uniq, by simp, ?_⟩
+    intro p hpm q hq
+    simp only [List.mem_singleton] at hq; subst hq
+    have := hacc.2
+    simp only [List.any_eq_true, not_exists, not_and, Bool.not_eq_true] at this
+    simp only [nameEq_symm p.1, nameEq_cstr]
+    rw [nameEq_symm]; exact this p hpm
+
+/-- every history of additions (accepted or rejected) from a fresh slice keeps the invariant;
+    a rejected addition leaves the slice as it was -/
+def addAll (cs : CS) : List (Bytes × VA) → CS
+  | [] => cs
+  | (n, v) :: rest => match csAddProperty cs n v with
+    | .ok cs' => addAll cs' rest
+    | .error _ => addAll cs rest
+
+theorem inv_history (v : VA) (ops : List (Bytes × VA)) : Inv (addAll (csCreate v) ops) := by
+  suffices h : ∀ cs, Inv cs → Inv (addAll cs ops) from h _ (inv_create v)
+  induction ops with
+  | nil => intro cs h; exact h
+  | cons op rest ih =>
+    intro cs h
+    obtain ⟨n, va⟩ := op
+    simp only [addAll]
+    cases hr : csAddProperty cs n va with
+    | ok cs' => exact ih cs' (inv_add cs cs' n va h hr)
+    | error e => exact ih cs h
+
+/-! ### slices read from a stream have exactly the metadata's column count -/
+
+theorem readCols_length (c : Cfg) (n : Nat) (sub : Option (List Bool)) (i : Nat) (d : Array UInt8) (pos : Nat)
+    (cols : List (Option CS)) (pos' : Nat) (h : readCols c n sub i d pos = .ok (cols, pos')) :
+    cols.length = n := by
+  induction n generalizing i pos cols pos' with
+  | zero => simp [readCols, P.pure] at h; rw [h.1]; rfl
+  | succ n ih =>
+    simp only [readCols, P.bind_def, P.pure_def', P.bind] at h
+    split at h
+    · simp at h
+    · rename_i col p1 _
+      split at h
+      · simp at h
+      · rename_i rest p2 hrest
+        simp only [P.pure] at h
+        cases h
+        simp [ih _ _ _ _ hrest]
+
+theorem read_column_count (c : Cfg) (ncols : Nat) (sub : Option (List Bool)) (d : Array UInt8) (pos : Nat)
+    (ts : TS) (pos' : Nat) (h : readTS c ncols sub d pos = .ok (some ts, pos')) :
+    ts.cols.length = ncols := by
+  simp only [readTS, P.bind_def, P.pure_def'] at h
+  obtain ⟨v, p1, _, h⟩ := P.bind_eq_ok.mp h
+  split at h
+  · simp [P.pure_eq_ok] at h
+  · split at h
+    · simp at h
+    · obtain ⟨cc, p2, _, h⟩ := P.bind_eq_ok.mp h
+      split at h
+      · simp at h
+      · split at h
+        · simp at h
+        · obtain ⟨_, p3, _, h⟩ := P.bind_eq_ok.mp h
+          obtain ⟨cols, p4, hcols, h⟩ := P.bind_eq_ok.mp h
+          simp only [P.pure_eq_ok, Prod.mk.injEq, Option.some.injEq] at h
+          rw [h.1]
+          exact readCols_length c ncols sub 0 d _ cols _ hcols
+
+/-! ### capacity growth (ghost arithmetic of the four realloc-when-full sites) -/
+
+/-- `sbdf_calculate_array_capacity`: `while (cap < size) cap = 1 + cap * 3 / 2;` (fuel = size + 1
+    iterations suffice because every iteration adds at least one) -/
+def calcCapAux : Nat → Nat → Nat → Nat
+  | 0, cap, _ => cap
+  | f+1, cap, size => if cap < size then calcCapAux f (1 + cap * 3 / 2) size else cap
+
+def calcCap (size : Nat) : Nat := calcCapAux (size + 1) 0 size
+
+/-- tie: the model agrees with the compiled function on 0..40 (table regenerated every run) -/
+theorem calcCap_matches_code : ∀ r ∈ Gen.capRows, calcCap r.1 = r.2 := by decide
+
+theorem aux_ge (f cap size : Nat) (h : size ≤ f + cap) : size ≤ calcCapAux f cap size := by
+  induction f generalizing cap with
+  | zero => simpa [calcCapAux] using h
+  | succ f ih =>
+    simp only [calcCapAux]
+    split
+    · apply ih; omega
+    · omega
+
+theorem aux_fuel (f cap size : Nat) (h : size ≤ f + cap) : calcCapAux (f + 1) cap size = calcCapAux f cap size := by
+  induction f generalizing cap with
+  | zero => simp only [calcCapAux]; split <;> omega
+  | succ f ih =>
+    rw [calcCapAux]
+    conv => rhs; rw [calcCapAux]
+    split
+    · apply ih; omega
+    · rfl
+
+theorem aux_step (f cap n : Nat) (hne : calcCapAux f cap n ≠ n) :
+    calcCapAux f cap (n + 1) = calcCapAux f cap n := by
+  induction f generalizing cap with
+  | zero => rfl
+  | succ f ih =>
+    simp only [calcCapAux] at hne ⊢
+    by_cases h : cap < n
+    · have h' : cap < n + 1 := by omega
+      simp only [h, h', if_true] at hne ⊢
+      exact ih _ hne
+    · simp only [h, if_false] at hne ⊢
+      have : ¬ cap < n + 1 := by omega
+      simp [this]
+
+/-- The growth pattern `if (calcCap(cnt) == cnt) realloc(calcCap(cnt + 1))` keeps the allocated
+    capacity equal to `calcCap` of the element count, so the slot written next, index `cnt`, is
+    always inside the allocation. -/
+theorem capacity_safe (n alloc : Nat) (hinv : alloc = calcCap n) :
+    let alloc' := if calcCap n = n then calcCap (n + 1) else alloc
+    alloc' = calcCap (n + 1) ∧ n < alloc' := by
+  have hge : n + 1 ≤ calcCap (n + 1) := aux_ge _ _ _ (by omega)
+  by_cases h : calcCap n = n
+  · simp only [h, if_true]; exact ⟨True.intro, by omega⟩
+  · simp only [h, if_false]
+    have e : calcCap (n + 1) = calcCap n := by
+      unfold calcCap
+      rw [aux_fuel (n + 1) 0 (n + 1) (by omega)]
+      exact aux_step (n + 1) 0 n h
+    rw [hinv, e]
+    refine ⟨rfl, ?_⟩
+    rw [← e]; omega
+
+/-- non-vacuity -/
+example : (csAddProperty (csCreate (.plain ⟨2, [[1, 0, 0, 0]]⟩)) [112] (.plain ⟨1, [[0]]⟩)).toOption.isSome = true
+    ∧ calcCap 5 = 7 := by decide
+
 end Sbdf.C11
